@@ -21,6 +21,8 @@ def swarm_cfg(rng, backends=W.DICT_BACKENDS, fxp_p=0.5, bits=(3, 4, 5, 6, 8, 8, 
         "p_try": rng.choice([0.0, 0.5, 0.9, 1.0]),
         "p_bool_cond": rng.choice([0.0, 0.5, 1.0]),
         "fxp": rng.random() < fxp_p,
+        # some regions get a PUBLIC condition (generic code called with a plain value): 1 is transparent, 0 refused
+        "p_plain_cond": 0.06,
     }
     if cfg["backend"] == "zkinterface":
         # configuration fault: the generic zkinterface backend is given another field through its public
@@ -278,6 +280,7 @@ class C08(TraceCheck):
         c = swarm_cfg(rng, self.backends, fxp_p=0.2, bits=(3, 4, 6, 8))
         c["max_nesting"] = rng.choice([1, 2, 3, 3])
         c["p_nonbool_cond"] = 0.12
+        c["p_plain_cond"] = 0.12
         return c
 
     def is_nontrivial(self, tr):
@@ -768,7 +771,7 @@ class C03(ProverCheck):
     kinds = ["lt", "le", "eq", "ne", "gt", "ge", "zero", "nonzero", "positive", "positive_n", "range",
              "range_secret", "tobool", "bits_n", "bool_cmp", "fxp_cmp", "fxp_range", "gt", "lt", "positive_n",
              "range", "bool_vs_int", "boolop_int", "fxp_const_other_resolution", "int_const_other_bitlength",
-             "int_vs_fxp", "dead_first", "unpack_raw"]
+             "int_vs_fxp", "dead_first", "unpack_raw", "block_cond"]
     rule = ("one assertion or type declaration per plan (assert_lt/le/eq/ne/gt/ge on integer, boolean and "
             "fixed-point operands with secret and constant right-hand sides, integer receiver with fixed-point "
             "operand and vice versa, assert_zero/nonzero, "
@@ -888,6 +891,29 @@ class C03(ProverCheck):
             vectors = [[a] for a in _boundary(rng, c, min(bl, 4))]
             plan = {"cfg": cfg, "inputs": inputs, "body": pre + [stmt]}
             return {"plan": plan, "vectors": vectors[:12], "seed": rng.randrange(1 << 30)}
+        elif kind == "block_cond":
+            # a raw (undeclared) secret integer used as the condition of a block of the block API, which declares it
+            # boolean: _if / _elif / _while / _breakif
+            form = ["if", "if_else", "elif", "while", "breakif"][(i // len(self.kinds)) % 5]
+            cfg["bitlength"] = max(cfg["bitlength"], 4)
+            inputs = [{"kind": "priv", "t": "I", "v": 0}, {"kind": "priv", "t": "I", "v": 3}]
+            c, other = {"ref": 0, "t": "I"}, {"op": "==", "a": {"ref": 1, "t": "I"}, "b": {"k": 99, "t": "I"}}
+            asg = [{"s": "track", "name": "x0", "e": {"k": 2}}]
+            if form == "if":
+                blk = {"s": "block_if", "cond": c, "then": asg, "elifs": [], "else": None}
+            elif form == "if_else":
+                blk = {"s": "block_if", "cond": c, "then": asg, "elifs": [], "else": [{"s": "track", "name": "x0", "e": {"k": 3}}]}
+            elif form == "elif":
+                blk = {"s": "block_if", "cond": other, "then": asg, "elifs": [[c, [{"s": "track", "name": "x0", "e": {"k": 5}}]]],
+                       "else": None}
+            elif form == "while":
+                blk = {"s": "block_while", "cond": c, "max": 1, "body": asg}
+            else:
+                blk = {"s": "block_while", "cond": {"op": "!=", "a": {"ref": 1, "t": "I"}, "b": {"k": 99, "t": "I"}}, "max": 1,
+                       "body": asg, "breakif": c, "break_pos": 0}
+            plan = {"cfg": cfg, "inputs": inputs, "blocks": True,
+                    "body": [{"s": "tracked_init", "name": "x0", "e": {"k": 1}}, blk]}
+            return {"plan": plan, "vectors": [[0, 3], [1, 3], [2, 3], [-1, 3], [5, 3]], "seed": rng.randrange(1 << 30)}
         elif kind == "unpack_raw":
             # raw secret bits declared to be a bounded integer (PackIntMod.unpack): v < modulus, nothing else
             m = rng.choice([3, 5, 6, 7, 9, 10, 12, 17, 4, 8])
@@ -962,6 +988,8 @@ class C03(ProverCheck):
                "ge": operator.ge}
         if s["s"] == "unpack_raw":
             return sum(b << j for j, b in enumerate(vec[:s["nbits"]])) < s["schema"][1]
+        if s["s"] in ("block_if", "block_while"):
+            return vec[0] in (0, 1)         # (kind block_cond: the raw integer used as a condition must be a bit)
         if s["s"] == "assert":
             a = [val(x) for x in s["args"]]
             if any(x is None for x in a):
@@ -996,6 +1024,8 @@ class C03(ProverCheck):
             return "k" if "k" in x else x["t"]
         if s["s"] == "unpack_raw":
             return {"op": "unpack_raw", "kinds": "I"}
+        if s["s"] in ("block_if", "block_while"):
+            return {"op": s["s"] + "_condition", "kinds": "I"}
         if s["s"] == "assert":
             d = {"op": "assert_" + s["kind"], "kinds": ",".join(kd(a) for a in s["args"])}
             if s.get("bits") is not None:
@@ -1430,6 +1460,17 @@ class C16(ProverCheck):
             probes["plain_out_of_range"] = 1
             if ok or tr.outcome not in ("raised:ValueError", "raised:AssertionError"):
                 add("plain_out_of_range_not_rejected", "honest", "outcome %s" % tr.outcome)
+            else:
+                # the same script as a program under an optimising interpreter (python -O / -OO): still refused
+                flag = rng.choice(["-O", "-OO"])
+                r = X.run_child(X.body_source(plan), {"inputs": [i["v"] for i in plan["inputs"]], "autoprove": False},
+                                X.child_env(plan["cfg"]["backend"]), pyflags=[flag])
+                faults["interpreter:" + flag] = 1
+                if r["rc"] == "timeout" or not r["events"] or r["events"][0].get("ev") != "imported":
+                    raise W.HarnessError("child interpreter did not run: %r %s" % (r["rc"], r["stderr"][-300:]))
+                if any(e.get("ev") == "packed" for e in r["events"]):
+                    add("plain_out_of_range_not_rejected", "python " + flag,
+                        "under python %s the out-of-range plain value was packed (exit status %r)" % (flag, r["rc"]))
         elif secret_oor:
             probes["secret_out_of_range"] = 1
             if ok:
@@ -1473,6 +1514,7 @@ E.register(C16())
 
 # ---------------------------------------------------------------------------------------
 # artefact files (C10, C11)
+import builtins
 import contextlib
 import io
 import os
@@ -1486,7 +1528,58 @@ FILE_MIX = {"let": 10, "assert": 2, "guarded": 1, "ite_call": 0.3, "set_ie": 0, 
             "unary": 2, "boolop": 1, "check": 1, "ite": 1, "tobits": 0.3, "tobool": 0.3, "fxp": 1}
 
 
-def prove_in_scratch(tr, stale=None, earlier=None):
+class PipeLike:
+    """A binary file object that behaves like the write end of a pipe."""
+
+    def __init__(self, f):
+        self._f = f
+        self.name = getattr(f, "name", None)
+        self.mode = getattr(f, "mode", "wb")
+
+    def write(self, b):
+        return self._f.write(b)
+
+    def writelines(self, ls):
+        return self._f.writelines(ls)
+
+    def flush(self):
+        return self._f.flush()
+
+    def close(self):
+        return self._f.close()
+
+    @property
+    def closed(self):
+        return self._f.closed
+
+    def fileno(self):
+        return self._f.fileno()
+
+    def writable(self):
+        return True
+
+    def readable(self):
+        return False
+
+    def seekable(self):
+        return False
+
+    def _illegal(self, *a, **k):
+        raise OSError(29, "Illegal seek")
+
+    seek = tell = truncate = _illegal
+
+    def read(self, *a):
+        raise io.UnsupportedOperation("not readable")
+
+    def __enter__(self):
+        return self
+
+    def __exit__(self, *a):
+        self.close()
+
+
+def prove_in_scratch(tr, stale=None, earlier=None, fifo=None):
     """Call the real backend.prove() of the run's world in a private scratch directory and
     return {filename: bytes}.  `stale` = file names to pre-populate with the (long) artefacts of an
     "earlier, larger proof" in the same directory."""
@@ -1502,8 +1595,21 @@ def prove_in_scratch(tr, stale=None, earlier=None):
             with open(os.path.join(d, fn), "wb") as f:
                 f.write(data)
         buf = io.StringIO()
-        with contextlib.redirect_stdout(buf), contextlib.redirect_stderr(buf):
-            tr.w.backend.prove()
+        real_open = builtins.open
+        if fifo:
+            # the artefact is a pipe-like sink (named pipe, character device): write-only, no seek / tell / read back.
+            # (a wrapper around the real file, so that the run stays single-threaded and exactly repeatable)
+            def pipe_open(file, mode="r", *a, **k):
+                f = real_open(file, mode, *a, **k)
+                if os.path.basename(str(file)) == fifo and "w" in mode:
+                    return PipeLike(f)
+                return f
+            builtins.open = pipe_open
+        try:
+            with contextlib.redirect_stdout(buf), contextlib.redirect_stderr(buf):
+                tr.w.backend.prove()
+        finally:
+            builtins.open = real_open
         for fn in sorted(os.listdir(d)):
             with open(os.path.join(d, fn), "rb") as f:
                 out[fn] = f.read()
@@ -1748,14 +1854,20 @@ class FileCheck(TraceCheck):
                 alt.append(inp["v"] + 1.0)
         case = {"plan": plan, "alt_inputs": alt, "stale_dir": rng.random() < 0.2}
         r3 = _random.Random("earlier/%s" % P.plan_digest(plan))
-        if r3.random() < 0.15 and not bulk:
+        if r3.random() < 0.06 and not bulk:
+            # surroundings: one artefact is a named pipe read by a consumer (no seeking, no reading back)
+            case["stale_dir"] = False
+            case["fifo"] = r3.choice(list(ARTEFACTS[cfg["backend"]]))
+        elif r3.random() < 0.15 and not bulk:
             case["stale_dir"] = False
             case["earlier_run"] = [(inp["v"] + r3.choice([1, 2, 5]) if inp["t"] == "I" else
                                     (1 - inp["v"] if inp["t"] == "B" else inp["v"] + 1.0)) for inp in plan["inputs"]]
-        if rng.random() < 0.05 and not bulk and not any(s.get("s") == "checkpoint_prove" for s in plan["body"]):
+        if rng.random() < 0.08 and not bulk and not any(s.get("s") == "checkpoint_prove" for s in plan["body"]):
             # the same script once more as a real program: fresh interpreter, real exit hook, and one of the
             # interpreter configurations a deployment may run under
-            case["child"] = {"pyflags": rng.choice([[], ["-O"], ["-OO"], ["-O"]])}
+            case["child"] = {"pyflags": rng.choice([[], ["-O"], ["-OO"], ["-O"]]),
+                             # ... and with a standard output that can only encode ASCII (cron, LC_ALL=C, CI)
+                             "stdout": rng.choice(["utf-8", "ascii", "ascii"])}
         return case
 
     def files_problems(self, files, rec):
@@ -1768,8 +1880,11 @@ class FileCheck(TraceCheck):
         flags = list(case["child"]["pyflags"])
         src = "_rt.bitlength = %d\n_fp = __import__('pysnark.fixedpoint').fixedpoint\n_fp.resolution = %d\n" % (
             plan["cfg"]["bitlength"], plan["cfg"]["resolution"]) + X.body_source(plan) + "\n__term__('end-of-script')\n"
-        r = X.run_child(src, {"inputs": [i["v"] for i in plan["inputs"]], "autoprove": True}, X.child_env(backend),
-                        pyflags=flags)
+        env = X.child_env(backend)
+        if case["child"].get("stdout", "utf-8") != "utf-8":
+            env["PYTHONIOENCODING"] = case["child"]["stdout"]
+            probes["child_run_ascii_stdout"] = 1
+        r = X.run_child(src, {"inputs": [i["v"] for i in plan["inputs"]], "autoprove": True}, env, pyflags=flags)
         if r["rc"] == "timeout":
             raise W.HarnessError("child interpreter timed out")
         ev = r["events"]
@@ -1808,7 +1923,7 @@ class FileCheck(TraceCheck):
                 earlier = prove_in_scratch(tr0)
                 probes["proved_after_earlier_run_in_same_directory"] = 1
         try:
-            files = prove_in_scratch(tr, stale, earlier)
+            files = prove_in_scratch(tr, stale, earlier, fifo=case.get("fifo"))
         except Exception as e:
             # the proving step itself failed on a trace that completed: nothing (or half of it) was written
             files = {}
@@ -1924,7 +2039,9 @@ REAL_EXIT = ("real: a fresh CPython interpreter per run with its real atexit / s
              "into an empty scratch directory; stubs: `flatbuffers` (zkinterface rows), fake qaptools executables "
              "(qaptools rows), fake `libsnark` module where a configuration says so")
 
-EXIT_ARGS = ["", "None", "0", "False", "3", "1", "True", "'msg'", "0.0", "-1"]
+EXIT_ARGS = ["", "None", "0", "False", "3", "1", "True", "'msg'", "0.0", "-1",
+             # an integer-like object that is not an int (numpy.int64(0), ...): CPython prints it and exits with 1
+             "type('Int64', (), {'__index__': lambda s: 0, '__str__': lambda s: '0'})()"]
 EXIT_MODES = [("end", None), ("sys_exit", EXIT_ARGS), ("raise_SystemExit", EXIT_ARGS),
               ("builtin_exit", EXIT_ARGS), ("builtin_quit", ["", "0", "2"]), ("uncaught", None),
               ("uncaught_assert", None), ("uncaught_in_guard", None), ("uncaught_in_dead_guard_user", None),
@@ -2425,6 +2542,15 @@ if _ph is not None:
             _out = _ph.poseidon_hash(_lst)
             _side({"ev": "hash", "msg": _msg, "out": [x.value for x in _out], "ncons": _rt.num_constraints - _n0,
                    "again": True, "len_after": len(_lst)})
+            # the message handed over as something other than a list (one-shot iterators included): either refused
+            # or hashed like the list
+            for _kind, _mk in (("tuple", tuple), ("iter", iter), ("generator", lambda l: (x for x in l)),
+                               ("map", lambda l: map(lambda x: x, l))):
+                try:
+                    _out = _ph.poseidon_hash(_mk(list(_lst)))
+                    _side({"ev": "hash", "msg": _msg, "out": [x.value for x in _out], "ncons": None, "form": _kind})
+                except Exception as _e:
+                    _side({"ev": "hash_refused", "form": _kind, "error": type(_e).__name__})
 if _rt.backend_name != "nobackend":
     from pysnark.ggh_hash import ggh_hash, ggh_hash_plain
     for _bits in _cfg["bitstrings"]:
@@ -2597,7 +2723,8 @@ class C20(TraceCheck):
                     if [v % p for v in e["out"]] != want:
                         add("sponge_ne_reference", "poseidon_hash of a %d-element message differs from the reference "
                             "(10* padding to a multiple of t-1)" % len(e["msg"]), length=len(e["msg"]) % (c["t"] - 1))
-                    counts.setdefault(("hash", len(e["msg"])), set()).add(e["ncons"])
+                    if e.get("ncons") is not None:
+                        counts.setdefault(("hash", len(e["msg"])), set()).add(e["ncons"])
                     if e.get("again") and e.get("len_after") != len(e["msg"]):
                         add("hash_mutates_its_argument", "the caller's message list has %d elements after hashing, had %d" % (
                             e["len_after"], len(e["msg"])))
@@ -2683,6 +2810,7 @@ class C07(ProverCheck):
         # a write to an array that lives outside the region is a Python side effect which a false guard does not
         # undo (guarded() is not transactional; the block API is the tool for that): not part of the twin comparison
         cfg["no_aset_in_regions"] = True
+        cfg["plain_conds"] = [1]        # (a public false condition is refused: nothing for the unguarded twin to mirror)
         plan = P.generate(rng, cfg, w)
         dead_field_zero_tail(plan)
         return {"plan": plan, "seed": rng.randrange(1 << 30)}
@@ -3239,9 +3367,18 @@ class C15(ProverCheck):
         oob = rng.random() < 0.25
         inputs, alt = [], []
 
+        P_ = W.PRIMES[cfg["backend"]]
+
+        congruent = []
+
         def ixval(lim):
             if oob and rng.random() < 0.4:
-                return rng.choice([lim, lim + 1, -1, -2, lim + 5])
+                # (the last three are far outside the array as integers but congruent to a position modulo the field:
+                # only the run-time check can refuse them)
+                v = rng.choice([lim, lim + 1, -1, -2, lim + 5, P_ + (lim - 1), P_, (lim - 1) - P_])
+                if abs(v) > 1000:
+                    congruent.append(v)
+                return v
             return rng.randrange(0, lim)
         dims = [n, m, q] if three_d else [n, m] if two_d else [n]
         ix_dim = []
@@ -3310,7 +3447,8 @@ class C15(ProverCheck):
             else:
                 body.append({"s": "aset", "arr": arr, "ix": ix, "chained": chained, "value": elem(), "try": True})
         plan = {"cfg": cfg, "inputs": inputs, "body": body}
-        return {"plan": plan, "alt_inputs": alt, "n_ix": n_ix, "seed": rng.randrange(1 << 30)}
+        return {"plan": plan, "alt_inputs": alt, "n_ix": n_ix, "seed": rng.randrange(1 << 30),
+                "congruent_index": bool(congruent)}
 
     def run(self, case):
         plan = case["plan"]
@@ -3376,6 +3514,8 @@ class C15(ProverCheck):
                     add("second_assignment", s, "lies %r move %s" % (lies, v[1]["name"]))
                     break
                 faults["lie-wire"] = atk.evals
+        elif tr.caught and any(c == "IndexError" for (_, c) in t_caught) and case.get("congruent_index"):
+            probes["index_congruent_to_a_position_refused_at_run_time"] = 1
         elif tr.caught and any(c == "IndexError" for (_, c) in t_caught):
             # out-of-range secret index: must also be unprovable with the Python check removed
             d = PV.run_plan(plan, nocheck=True)
@@ -3457,7 +3597,8 @@ class C17(TraceCheck):
                 leaf = {"k": rng.choice([0.5, 1.5, -2.25, 3.0, 0.0, 4.75]), "lt": "F"}
             elif k < 0.76:
                 # a text argument (a label, an option): never a public input, however number-like it reads
-                leaf = {"k": rng.choice(["12", "0x10", "1e3", " 7 ", "label", "007", "1_000", "", "True"]), "lt": "T"}
+                leaf = {"k": rng.choice(["12", "0x10", "1e3", " 7 ", "label", "007", "1_000", "", "True", "bytes:0102",
+                                         "bytearray:6162", "bytes:"]), "lt": "T"}
             elif k < 0.8:
                 leaf = {"enum": rng.choice(["A", "B", "C"]), "lt": "I", "k": {"A": 3, "B": 7, "C": 0}[None] if False else None}
                 leaf["k"] = {"A": 3, "B": 7, "C": 0}[leaf["enum"]]
@@ -4108,6 +4249,12 @@ class QapRun:
                 finally:
                     fs.reader = "tracer"
             g["__prove__"] = ckpt
+            saved_env = {}
+
+            def setenv(name, value):
+                saved_env.setdefault(name, os.environ.get(name))
+                os.environ[name] = value
+            g["__setenv__"] = setenv
             err = io.StringIO()
             with contextlib.redirect_stderr(err), contextlib.redirect_stdout(err):
                 try:
@@ -4127,6 +4274,11 @@ class QapRun:
                         self.prove_outcome = "raised:%s:%s" % (type(e).__name__, str(e)[:100])
                     finally:
                         fs.reader = "tracer"
+            for name, old_v in saved_env.items():
+                if old_v is None:
+                    os.environ.pop(name, None)
+                else:
+                    os.environ[name] = old_v
             self.stderr = err.getvalue()
             self.eqs_complete = fs.complete("pysnark_eqs") or ""
             self.emitted = list(w.emitted)
@@ -4489,6 +4641,11 @@ class C12(TraceCheck):
             case["edit_fault"] = rng.choice([None, ["qapgenf", 1], ["qapgenf", 2], ["qapprove", 1]])
             case["second_run"] = False
             case["faults"] = {"bufcap": faults["bufcap"]}
+        r5 = _random.Random("setenv/%s" % P.plan_digest(plan))
+        if r5.random() < 0.06:
+            # surroundings: the program itself sets a directory variable after the import (too late to matter)
+            plan["body"].insert(r5.randrange(0, len(plan["body"]) + 1),
+                                {"s": "setenv", "name": r5.choice(["PYSNARK_KEYDIR", "PYSNARK_PROOFDIR"]), "value": "elsewhere"})
         r4 = _random.Random("ckpt/%s" % P.plan_digest(plan))
         if r4.random() < 0.15 and not case["second_run"] and not case.get("edited_subqaps"):
             # history: an explicit prove() in the middle of the script, the one at exit follows (single run, no
